@@ -185,17 +185,30 @@ pub fn matrix(expression: Expression) -> Expression {
                             let mut valid = true;
                             for expression in &expressions {
                                 match expression {
-                                    Expression::BooleanExpression(left, _, _) => match **left {
-                                        Expression::Cast(ref field, _)
-                                        | Expression::Field(ref field) => {
-                                            if lookup.contains_key(field) {
+                                    // NOTE: Only a field (or cast) compared with a constant can be a
+                                    // cell, the same shapes that were counted above
+                                    Expression::BooleanExpression(left, _, right) => {
+                                        match (&**left, &**right) {
+                                            (
+                                                Expression::Cast(field, _)
+                                                | Expression::Field(field),
+                                                Expression::Boolean(_)
+                                                | Expression::Float(_)
+                                                | Expression::Integer(_)
+                                                | Expression::Null,
+                                            ) => {
+                                                if lookup.contains_key(field) {
+                                                    valid = false;
+                                                    break;
+                                                }
+                                                lookup.insert(field.clone(), expression.clone());
+                                            }
+                                            _ => {
                                                 valid = false;
                                                 break;
                                             }
-                                            lookup.insert(field.clone(), expression.clone());
                                         }
-                                        _ => {}
-                                    },
+                                    }
                                     Expression::Nested(field, _)
                                     | Expression::Search(_, field, _) => {
                                         if lookup.contains_key(field) {
@@ -210,7 +223,8 @@ pub fn matrix(expression: Expression) -> Expression {
                                     }
                                 }
                             }
-                            if valid {
+                            // NOTE: Every operand must have a column or it would be lost
+                            if valid && lookup.keys().all(|field| columns.contains(field)) {
                                 let mut row = vec![];
                                 for (i, column) in columns.iter().enumerate() {
                                     if let Some(expression) = lookup.remove(column) {
